@@ -443,6 +443,10 @@ def rule_fresh_start(ctx, rep):
     # A + separator + B
     sepr = (T('the'), T('the'), T('the'), T('.'))
     parts = [s for s in scripts([T('one'), T('twenty'), T('first'), T('and'), T(','), T('point')], 2)]
+    # decimals, with and without spoken zeros in the fraction (an all-zero fraction is "null" but not empty: s7-C10)
+    W = lambda *ws: tuple(T(w) for w in ws)        # noqa: E731
+    parts += [W('one', 'point', 'one'), W('one', 'point', 'zero'), W('one', 'point', 'zero', 'zero'), W('twenty', 'point', 'zero', 'one'),
+              W('zero', 'point', 'zero'), W('zero'), W('zero', 'zero', 'one'), W('one', 'point', 'one', 'point')]
     bad = []
     m = 0
     for th in (10.0, 0.0, 100.0):
